@@ -576,9 +576,12 @@ def check_svc_batch(ctx, cases, label, stats, max_pos):
             continue
         stats["reported"] += 1
 
+        category = " ".join(orc[0].split(" ")[:2])     # keep the class of failure while shrinking
+
         def fails(c):
             r = run_svc([(name, c)], max_pos, workers=1)[0]
-            return bool([r] if r.startswith("<") else svc_oracle(name, c.encode(), r))
+            msgs = [r] if r.startswith("<") else svc_oracle(name, c.encode(), r)
+            return any(m.startswith(category) for m in msgs)
         small = c05.shrink_text(t, fails, budget=120)
         r = run_svc([(name, small)], max_pos, workers=1)[0]
         msgs = ([r] if r.startswith("<") else svc_oracle(name, small.encode(), r)) or orc
